@@ -24,7 +24,7 @@ def mod(name):
 def run_and_judge(ctx, pre, op, now, meta):
     observe = bool(meta.get("observe"))
     meta = dict(meta, _now=now)
-    r = ops.run_cmd(ctx, pre, op, now, observe=observe)
+    r = ops.run_cmd(ctx, pre, op, now, observe=observe, tz=meta.get("tz"))
     res, post = r[0], r[1]
     obs = r[2] if observe else {}
     obs["root"] = ctx.root
